@@ -419,6 +419,14 @@ func makeFieldsMap(fields []*Field) map[int]*Field {
 }
 
 func (a *Auditor) checkType(oldType, newType *Type, warn bool, context string) {
+	a.checkScopedType(a.oldFrugal, oldType, a.newFrugal, newType, warn, context)
+}
+
+// checkScopedType compares oldType, written in the file oldScope, with newType,
+// written in the file newScope. A typedef declared in an include is followed
+// in the scope of that include, and types declared in an include are compared
+// by their include-qualified name.
+func (a *Auditor) checkScopedType(oldScope *Frugal, oldType *Type, newScope *Frugal, newType *Type, warn bool, context string) {
 	logMismatch := a.logger.LogWarning
 	if !warn {
 		logMismatch = a.logger.LogError
@@ -432,15 +440,48 @@ func (a *Auditor) checkType(oldType, newType *Type, warn bool, context string) {
 		return
 	}
 
-	underlyingOldType := a.oldFrugal.UnderlyingType(oldType)
-	underlyingNewType := a.newFrugal.UnderlyingType(newType)
+	oldScope, underlyingOldType := underlyingScopedType(oldScope, oldType)
+	newScope, underlyingNewType := underlyingScopedType(newScope, newType)
 	// TODO should this exclude the include name?
-	if underlyingOldType.Name != underlyingNewType.Name {
-		logMismatch(context, fmt.Sprintf("types not equal: '%s' -> '%s'",
-			underlyingOldType.Name, underlyingNewType.Name))
+	oldName := qualifiedTypeName(a.oldFrugal, oldScope, underlyingOldType)
+	newName := qualifiedTypeName(a.newFrugal, newScope, underlyingNewType)
+	if oldName != newName {
+		logMismatch(context, fmt.Sprintf("types not equal: '%s' -> '%s'", oldName, newName))
 		return
 	}
 
-	a.checkType(underlyingOldType.KeyType, underlyingNewType.KeyType, warn, context+" key type:")
-	a.checkType(underlyingOldType.ValueType, underlyingNewType.ValueType, warn, context+" value type:")
+	a.checkScopedType(oldScope, underlyingOldType.KeyType, newScope, underlyingNewType.KeyType, warn, context+" key type:")
+	a.checkScopedType(oldScope, underlyingOldType.ValueType, newScope, underlyingNewType.ValueType, warn, context+" value type:")
+}
+
+// underlyingScopedType follows any typedefs to get the base IDL type like
+// Frugal.UnderlyingType, but reads the target of a typedef in the scope of the
+// file which declares the typedef. It returns the base type together with the
+// file in whose scope the names of the base type are to be read.
+func underlyingScopedType(scope *Frugal, t *Type) (*Frugal, *Type) {
+	for {
+		declaring := scope
+		if include := t.IncludeName(); include != "" {
+			parsed, ok := scope.ParsedIncludes[include]
+			if !ok {
+				return scope, t
+			}
+			declaring = parsed
+		}
+		typedef, ok := declaring.typedefIndex[t.ParamName()]
+		if !ok {
+			return scope, t
+		}
+		scope, t = declaring, typedef.Type
+	}
+}
+
+// qualifiedTypeName returns the name of t, read in the scope of the file
+// scope, as it is written in the audited file root: a type declared in an
+// included file is prefixed with the name of that file.
+func qualifiedTypeName(root, scope *Frugal, t *Type) string {
+	if scope != root && t.IsCustom() && t.IncludeName() == "" {
+		return scope.Name + "." + t.Name
+	}
+	return t.Name
 }
